@@ -658,27 +658,21 @@ func (st *state) observe(r *sim.Rand) {
 	st.cflist()
 }
 
-// ownerWriteInts is what a caller may do with a slice it was handed: the
-// name marks a write to caller-owned memory (see the driver's race
-// attribution).
+// ownerWriteInts is what every caller may do with a slice it was handed:
+// append to it. The append lands in the slice's spare capacity if it has any
+// - memory behind the end of what the caller was given, which must not be
+// anybody else's. The elements the caller WAS given are left alone (whether
+// results are the caller's to edit is not in the statement: a library may
+// hand out windows on read-only tables). The name marks a write to
+// caller-owned memory (see the driver's race attribution).
 func ownerWriteInts(s []int, r *sim.Rand) {
-	switch r.Intn(4) {
-	case 0: // reverse in place (sort descending)
-		for i, j := 0, len(s)-1; i < j; i, j = i+1, j-1 {
-			s[i], s[j] = s[j], s[i]
-		}
-	case 1: // filter in place / overwrite
-		for i := range s {
-			s[i] = 100000 + i
-		}
-	case 2: // append (lands in spare capacity if there is any)
-		s = append(s, 4242, 4243)
-		s[len(s)-1] = 4244
-	default: // everything up to the capacity
-		s = s[:cap(s)]
-		for i := range s {
-			s[i] = -7
-		}
+	n := len(s)
+	if cap(s) == n {
+		return
+	}
+	s = s[:cap(s)]
+	for i := n; i < len(s); i++ {
+		s[i] = -7 - r.Intn(4)
 	}
 }
 
@@ -799,18 +793,15 @@ func (st *state) cflist() {
 	}
 }
 
+// ownerWriteCFList: appending to the mask list of a CFList one was handed
+// (spare capacity only, see ownerWriteInts).
 func ownerWriteCFList(cf *lorawan.CFList) {
-	switch pl := cf.Payload.(type) {
-	case *lorawan.CFListChannelPayload:
-		pl.Channels[3], pl.Channels[4] = 0, 0
-		pl.Channels[0], pl.Channels[1] = pl.Channels[1], pl.Channels[0]
-	case *lorawan.CFListChannelMaskPayload:
-		for i := range pl.ChannelMasks {
-			pl.ChannelMasks[i][3] = !pl.ChannelMasks[i][3]
+	if pl, ok := cf.Payload.(*lorawan.CFListChannelMaskPayload); ok && pl != nil && cap(pl.ChannelMasks) > len(pl.ChannelMasks) {
+		spare := pl.ChannelMasks[len(pl.ChannelMasks):cap(pl.ChannelMasks)]
+		for i := range spare {
+			spare[i] = lorawan.ChMask{true, false, true}
 		}
-		pl.ChannelMasks = append(pl.ChannelMasks, lorawan.ChMask{})
 	}
-	cf.CFListType = 7
 }
 
 // ----------------------------------------------------------------- P4
